@@ -674,11 +674,15 @@ class Polyface3D(Base2DIn3D):
                            for pt in self._vertices)
         else:
             _verts = tuple(pt.scale(factor, origin) for pt in self.vertices)
-        _new_pface = Polyface3D(_verts, self.face_indices, self.edge_information)
-        if self._faces is not None:
+        _f_indices = self.face_indices
+        if factor < 0:  # a point inversion; keep the right-hand rule as reflect does
+            _f_indices = tuple(tuple(tuple(reversed(loop)) for loop in face)
+                               for face in self.face_indices)
+        _new_pface = Polyface3D(_verts, _f_indices, self.edge_information)
+        if self._faces is not None and factor >= 0:
             _new_pface._faces = tuple(face.scale(factor, origin)
                                       for face in self._faces)
-        _new_pface._volume = self._volume * factor ** 3 \
+        _new_pface._volume = self._volume * abs(factor) ** 3 \
             if self._volume is not None else None
         return _new_pface
 
